@@ -91,15 +91,50 @@ def _run_one(args):
         shutil.rmtree(tmp, ignore_errors=True)
 
 
+def _run_alpha(args):
+    """Generic twin: rename every local variable of the package (and re-emit it with ast.unparse). The rules must report
+    the same (rule, symbol) multiset and examine the same number of instances per rule as on the current tree."""
+    import collections
+
+    from .driver import analyse
+    from .metamorph import alpha_rename_tree
+
+    prop, repo_root = args
+    name = "twin: every local variable renamed, package re-emitted without comments (metamorphic)"
+    tmp = tempfile.mkdtemp(prefix="irpy-sa-")
+    try:
+        _copy_tree(repo_root, tmp)
+        stats = alpha_rename_tree(tmp)
+        try:
+            a, _ = analyse(prop, repo_root, "quick")
+            b, _ = analyse(prop, tmp, "quick")
+        except AnalysisError as e:
+            return (name, "twin-analysis-error", str(e)[:200])
+        fa = collections.Counter((f.rule, f.symbol) for f in a.findings)
+        fb = collections.Counter((f.rule, f.symbol) for f in b.findings)
+        oa = collections.Counter(o["rule"] for o in a.obligations)
+        ob = collections.Counter(o["rule"] for o in b.obligations)
+        if fa != fb:
+            diff = sorted(k for k in set(fa) | set(fb) if fa[k] != fb[k])
+            return (name, "FALSE-ALARM", f"findings differ at {diff[:4]}")
+        if oa != ob:
+            return (name, "FALSE-ALARM", f"instances examined differ: {dict(oa)} vs {dict(ob)}")
+        return (name, "silent", f"{stats['locals_renamed']} locals renamed in {stats['modules']} modules")
+    finally:
+        shutil.rmtree(tmp, ignore_errors=True)
+
+
 def run(prop: str, repo_root: str) -> dict:
     vs = _variants(prop)
     if not vs:
         return {"variants": 0, "note": "no self-test variants registered for this property"}
     base = _findings(prop, repo_root)
     jobs = [(prop, repo_root, i, base) for i in range(len(vs))]
-    with multiprocessing.Pool(min(16, len(jobs))) as pool:
+    with multiprocessing.Pool(min(16, len(jobs) + 1)) as pool:
+        alpha = pool.apply_async(_run_alpha, ((prop, repo_root),))
         results = pool.map(_run_one, jobs)
-    summary = {"variants": len(vs), "results": [{"name": n, "verdict": s, "detail": d} for n, s, d in results]}
+        results.append(alpha.get())
+    summary = {"variants": len(results), "results": [{"name": n, "verdict": s, "detail": d} for n, s, d in results]}
     bad = [r for r in results if r[1] in ("MISSED", "FALSE-ALARM", "broken-variant", "twin-analysis-error")]
     na = [r for r in results if r[1] == "not-applicable"]
     for n, s, d in results:
